@@ -804,6 +804,16 @@ func (c *Client) Start() (addr net.Addr, err error) {
 		}
 		if scanner.Err() != nil {
 			c.logger.Error("error encountered while scanning stdout", "error", scanner.Err())
+
+			// The scanner gives up for good on a line longer than its buffer.
+			// Keep consuming stdout so the plugin never blocks writing to it.
+			c.clientWaitGroup.Add(1)
+			c.pipesWaitGroup.Add(1)
+			go func() {
+				defer c.clientWaitGroup.Done()
+				defer c.pipesWaitGroup.Done()
+				io.Copy(io.Discard, runner.Stdout())
+			}()
 		}
 	}()
 
